@@ -4,6 +4,7 @@ CONSTANTS
   Vals = {0, 1, 2}
   INF = 1000000
   MaxDim = 2
+  MaxBlocked = 0
   AssignInf = FALSE
   FlagDims = {2}
   Mode = "all"
